@@ -12,6 +12,9 @@ CLAIMED = {
  "C07": dict(section="5/C07", technique="Lean 4 theorems (window_spec by omega, rangeGen_spec by induction over chunk lists) + differential correspondence",
     text="Proof: C07 (full statement) — for every known-length representation (buffer, seekable file at any offset, chunk generator under every chunking), every valid single range and any further ranges, respond = the RFC 9110 answer (206+slice+Content-Range+length, or 416), and 200 full without a range. Unbounded in L, first, last, chunking. Tied to the code by exhaustive small-L differential runs over all representation kinds plus an end-to-end Range header path through a real Application.",
     note="Trusted: Lean kernel, model Poor.Range/HeaderValue.parseRange, harness/c07.py, CPython io. Generator responses assume declared length == total chunk length."),
+ "C09": dict(section="5/C09", technique="Lean 4 theorems (conservation invariant lifted over arbitrary call histories by induction; fun_induction over the readline loop) + differential correspondence",
+    text="Proof: C09 (full statement) about Poor.Reader — conservation (results ++ pending = first n bytes) for every stream, declared length, block size, short-read script and call history; completeness (b'' only when nothing is owed); budget invariant (every underlying request <= bytes left of the declared length; position + budget = n); no CRLF inside a readline result; cut reason; bounded underlying reads per call. The model is tied to request.py CachedInput by running both on the same histories (results, per-call read counts and the exact sequence of underlying request sizes are compared).",
+    note="Trusted: Lean kernel, model Poor.Reader, harness/c09.py with its instrumented stream. An empty underlying read is end of input; the blocking/wall-clock behaviour of the real stream is outside the model."),
 }
 
 def check(pid):
